@@ -670,7 +670,6 @@ func (e *Engine) formatPieces(st *State, format SliceV, argv Val) []Piece {
 var _ = strconv.Itoa
 var _ = fmt.Sprint
 
-
 // timeRange is the library contract of time.Time's broken-down fields.
 func timeRange(f string, u *Term) *Term {
 	lo, hi := uint64(0), uint64(59)
@@ -686,7 +685,6 @@ func timeRange(f string, u *Term) *Term {
 	}
 	return And(ULe(BVu(lo, 64), u), ULe(u, BVu(hi, 64)))
 }
-
 
 // ufVal builds a value of type t whose components are uninterpreted functions of args.
 func (e *Engine) ufVal(st *State, t types.Type, prefix string, args []*Term) Val {
@@ -848,12 +846,17 @@ func innerSortOf(s string) string {
 	return strings.TrimSuffix(s, ")")
 }
 
-
 // applyContract replaces a call by the callee's contract: check requires, havoc results, assume ensures.
 func (e *Engine) applyContract(st *State, fr *Frame, callee *ssa.Function, args []Val) []Outcome {
 	if req := e.findContract(callee, "requires"); req != nil {
 		g := e.evalContract(st, req, args, false)
-		e.oblige(st, "call-pre:"+callee.Name(), g, "precondition of "+callee.Name()+" at call in "+fr.fn.Name())
+		where := ""
+		for _, in := range fr.inLoop {
+			if in {
+				where = "@loop" // the call is made inside a loop of the unit (after a loop head was passed)
+			}
+		}
+		e.oblige(st, "call-pre:"+callee.Name()+where, g, "precondition of "+callee.Name()+" at call in "+fr.fn.Name())
 		st.assumeT(g)
 	}
 	res := callee.Signature.Results()
@@ -865,7 +868,9 @@ func (e *Engine) applyContract(st *State, fr *Frame, callee *ssa.Function, args 
 				if sto, ok := ins.(*ssa.Store); ok {
 					if g, ok := sto.Addr.(*ssa.Global); ok && strings.HasPrefix(g.Name(), "vc") {
 						et := g.Type().Underlying().(*types.Pointer).Elem()
+						st.noPre = true
 						v := st.freshVal(et, "ghost_"+g.Name())
+						st.noPre = false
 						if id, ok := st.globals[g.String()]; ok {
 							st.cells[id] = v
 						} else {
@@ -935,7 +940,6 @@ func (e *Engine) applyContract(st *State, fr *Frame, callee *ssa.Function, args 
 	return []Outcome{{st: st, ret: ret}}
 }
 
-
 // flattenVal turns a value into the list of scalar terms that identify it.
 func flattenVal(v Val) []*Term {
 	switch x := v.(type) {
@@ -971,7 +975,6 @@ func flattenVal(v Val) []*Term {
 	fail("flattenVal: %T", v)
 	return nil
 }
-
 
 // callback models a call through a function value of unknown identity (a handler stored in a field): the
 // callback contract vc_callback_<field>_requires is an obligation at the call site, the result is unconstrained;
@@ -1080,7 +1083,6 @@ func (e *Engine) lookupName(st *State, fr *Frame, name string) (Val, bool) {
 	return nil, false
 }
 
-
 // nonNilUnlessError: convention assumed for abstract callees (observers, interface methods of the environment):
 // when the error result is nil, pointer and interface results are non-nil. Listed among the unit's assumptions.
 func (e *Engine) nonNilUnlessError(st *State, ret []Val) {
@@ -1106,7 +1108,6 @@ func (e *Engine) nonNilUnlessError(st *State, ret []Val) {
 		}
 	}
 }
-
 
 func ifaceStem(t types.Type) string {
 	n := typeName(t)
@@ -1189,7 +1190,6 @@ func (e *Engine) chanEvent(st *State, fr *Frame, kind string, operand ssa.Value,
 		*st = *hs[0].st
 	}
 }
-
 
 // needsFnVal: the callee is a run-time value (interface receiver, function value, closure).
 func needsFnVal(cc *ssa.CallCommon) bool {
